@@ -292,14 +292,14 @@ def _main(a, prop, seed, t0, mod, tmpdir):
     # a known finding whose signature suddenly matches much more often than recorded is a new problem, not the old one
     for f in findings:
         if f.get("kind") == "known" and f.get("max_rate") is not None:
-            sname = f.get("match", {}).get("sub")
-            d = per_sub.get(sname)
-            if d and d["evaluations"] >= 200:
+            for sname, d in per_sub.items():  # the bound holds in every sub-check in which the signature is recognised
+                if d["evaluations"] < 200:
+                    continue
                 rate = d["excluded_known"].get(f["id"], 0) / d["evaluations"]
                 if rate > f["max_rate"]:
                     violations.append((sname, "omp", 1, {"spec": {"known_finding": f["id"], "rate": rate},
-                                                         "msg": "signature of known finding %s matched %.2f%% of the cases (recorded bound %.2f%%): "
-                                                                "this is a different, more frequent failure" % (f["id"], 100 * rate, 100 * f["max_rate"]),
+                                                         "msg": "signature of known finding %s matched %.2f%% of the cases of sub-check %s (recorded bound %.2f%%): "
+                                                                "this is a different, more frequent failure" % (f["id"], 100 * rate, sname, 100 * f["max_rate"]),
                                                          "info": None}, None))
     replay_paths = []
     if violations:
